@@ -130,6 +130,8 @@ def configs(tier):
 
 def run_config(cfg, seed, tier):
     r = _run_config(cfg, seed, tier)
+    # 'p2p.*' (soc.py built a point-to-point connection: no decoder at all) is a routing matter judged by C06, which cross-lists busreal.*
+    r["violations"] = [v for v in r.get("violations", []) if not v["rule"].startswith("p2p.")]
     r["work_budget_per_call"] = K._Budget.limit
     return r
 
